@@ -6,6 +6,7 @@ import z3
 from pyvc.vals import *  # noqa
 from pyvc.task import FragmentTask, Task
 from pyvc.vc import veq
+from pyvc.loops import LoopSpec
 
 TA = "amr_kitchen.taste.taste.Taster."
 I = z3.IntSort()
@@ -191,10 +192,71 @@ class Structure(Task):
             ctx.oblige("complete.all-present-leaves-isgood", self_.attrs.get("isgood") is True, "P")
 
 
+class ConsumeU(FragmentTask):
+    """The loop of taste_binary_headers / taste_binary_shape that consumes the workers' verdicts, for ANY number of binary files
+    (unbounded: loop invariant).  Verdict j is a message exactly when BAD(j).  Invariant after k verdicts: isgood holds exactly
+    when none of the first k verdicts was a message - and in failing mode none was (the first one raised).  Hence: a message
+    from any worker clears isgood, and leaves the method by an exception exactly in failing mode."""
+    reach = "U"
+    inline = (TA + "raise_error",)
+
+    def __init__(self, prop, method):
+        self.prop, self.method = prop, method
+        self.qual = TA + method
+        self.worker = "mp_fun_headers" if method == "taste_binary_headers" else "mp_fun_shape"
+        self.name = f"{method}.every-worker-verdict-consumed[any number of files]"
+        self.first = self.last = lambda s_: isinstance(s_, ast.For) and "imap(" + self.worker in ast.unparse(s_.iter)
+
+    def functions(self):
+        return [self.qual, TA + "raise_error"]
+
+    def setup(self, ex):
+        ctx = ex.ctx
+        B = z3.BoolSort()
+        n = z3.Int("ntasks")
+        ctx.assume(n >= 0)
+        BAD, ANY = z3.Function("BAD", I, B), z3.Function("ANYBAD", I, B)
+        q = z3.Int("q")
+        ctx.assume(z3.Not(ANY(0)))
+        ctx.assume(z3.ForAll([q], z3.Implies(q >= 0, ANY(q + 1) == z3.Or(ANY(q), BAD(q))), patterns=[ANY(q + 1)]))
+        fob = z3.Bool("fail_on_bad")
+
+        def wk(ex_, args, kw):
+            j = args[0]
+            return "message of the worker" if ex_.ctx.branch(BAD(to_z3(j))) else None
+        self.contracts = {"amr_kitchen.taste.taste." + self.worker: wk}
+        pool = Record("Pool")
+        pool.held = True
+        self_ = Record("amr_kitchen.taste.taste.Taster", isgood=True, fail_on_bad=fob, pool=pool, v=z3.Int("verbosity"))
+        tasks = SymSeq(n, lambda j, ex_=None: to_z3(j), "list")
+
+        def template(ex_, fr, k, entry):
+            seen_none = z3.Implies(fob, z3.Not(ANY(to_z3(k))))       # part of the invariant: assumed when applied, PROVED when established
+            return {"self.isgood": z3.Not(ANY(to_z3(k))), "__assume__": [seen_none], "__assert__": [("in-failing-mode-no-report-so-far", seen_none)]}
+        from pyvc.exec import loop_nodes
+        fdef = ex.repo.func(self.qual)[0]
+        ordn = [i_ for i_, node in enumerate(loop_nodes(fdef)) if self.first(node)]
+        if len(ordn) != 1:
+            raise Unsupported("the loop consuming the workers' verdicts is not in this method (restructured code)")
+        self.loopspecs = {(self.qual, ordn[0]): LoopSpec(template)}
+        return {"frame": {"self": self_, "mp_inputs": tasks, "lv": z3.Int("lv")}, "n": n, "ANY": ANY, "fob": fob}
+
+    def post(self, ex, inp, out):
+        ctx = ex.ctx
+        n, ANY, fob = inp["n"], inp["ANY"], inp["fob"]
+        if out.kind == "ret":
+            good = inp["frame"]["self"].attrs.get("isgood")
+            ctx.oblige("post.after-the-loop-isgood-iff-no-worker-reported", to_z3(good) == z3.Not(ANY(n)), "P")
+            ctx.oblige("post.in-failing-mode-the-loop-only-ends-normally-without-a-report", z3.Implies(fob, z3.Not(ANY(n))), "P")
+        else:
+            ctx.oblige("post.leaves-by-an-exception-only-in-failing-mode-with-isgood-cleared",
+                       zand(fob, out.exc.etype == "TastesBadError", inp["frame"]["self"].attrs.get("isgood") is False), "P", note=str(out.exc))
+
+
 def parent_tasks(prop):
     return [WorkerInput(prop, meth, f) for meth in ("taste_binary_headers", "taste_binary_shape") for f in (FILES[0], FILES[1])] + \
         [ResultsConsumed(prop, meth, lim) for meth in ("taste_binary_headers", "taste_binary_shape") for lim in (0, 1)] + \
-        [Structure(prop, 0), Structure(prop, 1)]
+        [Structure(prop, 0), Structure(prop, 1)] + [ConsumeU(prop, meth) for meth in ("taste_binary_headers", "taste_binary_shape")]
 
 
 def parent_canaries():
